@@ -182,6 +182,7 @@ IDENT = ('S', 0, 0, 0, 0)
 #         'deg'/'rad' orientation                         'mat'    (...,k,k) matrices M[i(y), j(x)]
 #         'fit'      position-free, from an iterative fit 'xfit','yfit' float position from a fit
 #         'img'      image-like array (float)             'lab'    image-like integer array
+#         'imgin'    image-like array compared inside the embedded frame only
 #         'exact_s'  identical in the same order under translation, identical as a multiset under transposition
 #  partner: name of the output this one maps onto under transposition (default: itself)
 def _num(v):
@@ -287,6 +288,14 @@ def compare(ref, out, view, api):
         elif kind == 'mat':
             e = np.swapaxes(a, -1, -2) if T else a
             ok, msg = _close(e, b, FREE_RTOL, FREE_ATOL)
+        elif kind == 'imgin':
+            # only the embedded frame is compared (the canvas may legitimately hold flux of
+            # sources that lie outside the original frame)
+            if T or b.ndim != 2:
+                ok, msg = _close(a.T if T else a, b, FREE_RTOL, FREE_ATOL)
+            else:
+                ny, nx = a.shape
+                ok, msg = _close(a, b[dy:dy + ny, dx:dx + nx], FREE_RTOL, FREE_ATOL)
         elif kind in ('img', 'lab'):
             if T:
                 e = a.T
@@ -829,6 +838,22 @@ def api_make_model_image(view, cfg):
         t['y_stddev'] = np.linspace(2.5, 1.2, n)
         t['theta'] = np.resize(sc.rand_theta, n)
         img = make_model_image(view.shape, model, t, model_shape=(15, 15), x_name='x_mean', y_name='y_mean')
+    elif cfg == 'gauss2d_bkg':
+        # a per-row local background, and a first row that lies wholly off the original frame (it
+        # may land on the larger canvas, outside the embedded frame): the frame pixels still hold
+        # each in-frame row's own background
+        p2 = np.vstack([[(-10.0, 20.0)], p])
+        x, y = view.xy(p2[:, 0], p2[:, 1])
+        n = len(p2)
+        model = Gaussian2D()
+        t['x_mean'] = x
+        t['y_mean'] = y
+        t['amplitude'] = np.linspace(10, 90, n)
+        t['x_stddev'] = np.linspace(1.5, 3.0, n)
+        t['y_stddev'] = np.linspace(2.5, 1.2, n)
+        t['theta'] = np.resize(sc.rand_theta, n)
+        t['local_bkg'] = np.linspace(0.5, 4.0, n)
+        img = make_model_image(view.shape, model, t, model_shape=(15, 15), x_name='x_mean', y_name='y_mean')
     elif cfg == 'prf_bbox':
         model = CircularGaussianPRF()
         t['x_0'] = x
@@ -847,7 +872,7 @@ def api_make_model_image(view, cfg):
         t['fwhm'] = np.linspace(2.0, 3.2, n)
         img = make_model_image(view.shape, model, t, model_shape=(13, 15), discretize_method='oversample',
                                discretize_oversample=3)
-    return {'image': ('img', img)}, len(t)
+    return {'image': ('imgin' if cfg == 'gauss2d_bkg' else 'img', img)}, len(t)
 
 
 def api_centroid_sources(view, cfg):
@@ -944,7 +969,7 @@ APIS = {
     'RadialProfile': (api_radial_profile, [(0, 'exact'), (2, 'center'), (4, 'subpixel'), ('edge', 'exact'),
                                            ('edge', 'center')], 'ST'),
     'CurveOfGrowth': (api_curve_of_growth, [(1, 'exact'), (3, 'center'), (5, 'subpixel')], 'ST'),
-    'make_model_image': (api_make_model_image, ['gauss2d', 'prf_bbox', 'prf_over'], 'S'),
+    'make_model_image': (api_make_model_image, ['gauss2d', 'gauss2d_bkg', 'prf_bbox', 'prf_over'], 'S'),
     'centroid_sources': (api_centroid_sources, ['com', 'quadratic', 'g1', 'g2'], 'ST'),
     'centroid_func': (api_centroid_func, [(f, i) for f in ('com', 'quadratic', 'g1', 'g2') for i in (1, 4)]
                       + [(f, 1, ln) for f in ('com', 'g1', 'g2') for ln in ('row', 'col')], 'T'),
